@@ -63,6 +63,13 @@ class Model(object):
 
 def observe(store, model, pats):
     """All observers at one node.  Returns a Violation or None."""
+    try:
+        return _observe(store, model, pats)
+    except (Exception, StopIteration) as e:  # noqa -- a look-up never raises, whatever the store holds
+        return Violation("lookup-raised", "a look-up (len / find / in / find_allow_zeros) raised %s: %s; pending pairs in the model: %r" % (type(e).__name__, e, model.pending_pairs()))
+
+
+def _observe(store, model, pats):
     n = len(store)
     want_n = len(model.pending_pairs())
     if n != want_n:
@@ -89,6 +96,13 @@ def observe(store, model, pats):
 
 def apply(store, model, mut):
     """Apply one mutator to both.  Returns a Violation or None."""
+    try:
+        return _apply(store, model, mut)
+    except (Exception, StopIteration) as e:  # noqa -- put / clear / clear_all never raise
+        return Violation("mutator-raised", "%r raised %s: %s" % (mut[:3], type(e).__name__, e))
+
+
+def _apply(store, model, mut):
     kind = mut[0]
     if kind == "put":
         _, a0, a1, cmd, data = mut
